@@ -6,6 +6,7 @@ import pyModeS as pms
 from pyModeS.decoder import uplink as U
 from ref import frames
 from vlib import variants
+from vlib import gen
 from vlib.core import Leg, call
 
 A = pms.adsb
@@ -179,7 +180,7 @@ def enum_cells(ctx):
                 for low, addr in variants:
                     idx += 1
                     if ctx.mine(idx):
-                        yield {"df": df, "tc": tc, "st3": st3, "low48": low, "ctx_addr": rng.getrandbits(24) if addr is None else addr, "ctx_head": rng.getrandbits(27),
+                        yield {"df": df, "tc": tc, "st3": st3, "low48": low, "ctx_addr": gen.addr24(rng) if addr is None else addr, "ctx_head": rng.getrandbits(27),
                                "hc": rng.choice("ULM")}
 
 
@@ -320,7 +321,7 @@ def enum_pairs(ctx):
                     idx += 1
                     if ctx.mine(idx):
                         rng = ctx.rng("pair", tc0, tc1, oe, j)
-                        yield {"tc0": tc0, "tc1": tc1, "oe": list(oe), "ctx_a": rng.getrandbits(51), "ctx_b": rng.getrandbits(51), "ctx_addr": rng.getrandbits(24),
+                        yield {"tc0": tc0, "tc1": tc1, "oe": list(oe), "ctx_a": rng.getrandbits(51), "ctx_b": rng.getrandbits(51), "ctx_addr": gen.addr24(rng),
                                "t0": rng.choice([0, 1, 5]), "t1": rng.choice([0, 1, 5]), "ref": rng.choice([None, [52.0, 4.0], [-33.0, 151.0]]),
                                "stamps": rng.choice(["int", "int", "float", "datetime", "numpy"]), "hc": rng.choice("ULM")}
 
